@@ -451,6 +451,19 @@ def build(api: Api, gen: Gen):
                 lambda p, q, r, a=a, b=b: api.field_rebased_at(a, b, F, [p, q, r], "lambda", "point"),
                 f"ScalarField(lambda) in {n} .rebase({nb})", [("F",), U], "R", mf, fproof)
 
+    # -- the reading of sympy.atan2: exact values on the eight principal directions ------------------------------
+    dirs = ["atan2_east", "atan2_north_east", "atan2_north", "atan2_north_west", "atan2_west", "atan2_south_west",
+            "atan2_south", "atan2_south_east"]
+    for k, (yy, xx) in enumerate([(0, 1), (1, 1), (1, 0), (1, -1), (0, -1), (-1, -1), (-1, 0), (-1, 1)]):
+        try:
+            val = sp.atan2(sp.Integer(yy), sp.Integer(xx))
+            t = to_terms([val], [])[0]
+            gen.lemma(f"corr_atan2_dir{k}", f"atan2 {sx.zlit(yy)} {sx.zlit(xx)} = {t}",
+                "first [" + " | ".join(f"rewrite {d}" for d in dirs) + "]. field.",
+                f"sympy.atan2({yy}, {xx}) = {val}")
+        except Exception as e:  # pylint: disable=broad-except
+            gen.broken.append((f"atan2_dir{k}", f"{type(e).__name__}: {e}"))
+
     # -- compositions inside Coq (statements about the implementation's own outputs) ---------------------------
     def have(*names):
         return all(n in gen.legs for n in names)
@@ -643,7 +656,7 @@ def run(ctx):
 
     # ---- 2. specification predicates on the real code (seeded) ----------------------------------------------
     checks = spec_checks(api)
-    n_pts = ctx.pick(5, 25)
+    n_pts = ctx.pick(5, 120)
     spec_fail: dict[str, dict] = {}
     n_eval = 0
     seen = set()
@@ -672,7 +685,7 @@ def run(ctx):
     for name, lg in sorted(gen.legs.items()):
         if any(g[0] == "F" for g in lg["groups"]):
             continue    # fields with concrete expressions are covered by the field_* specification checks
-        for _ in range(ctx.pick(5, 12)):
+        for _ in range(ctx.pick(5, 40)):
             vals = []
             for g in lg["groups"]:
                 if g[0] == "V3":
@@ -702,6 +715,21 @@ def run(ctx):
             f"{f['concrete_run']} but its output on generic symbols evaluates to {f['generic_output_evaluated']}",
             {"kind": "disagreement", "theorem_or_tie": f"value-obliviousness of leg {name}", **f},
             found_input=any(s in spec_fail for s in related_specs(name, checks)))
+
+    # ---- 3b. sympy.atan2 / acos are read as Base.Atan2.atan2 / stdlib acos: compare numerically -----------------------
+    def coq_atan2(y, x):      # the branch structure of Base/Atan2.v
+        if x > 0:
+            return math.atan(y / x)
+        if x < 0:
+            return math.atan(y / x) + math.pi if y >= 0 else math.atan(y / x) - math.pi
+        return math.pi / 2 if y > 0 else (-math.pi / 2 if y < 0 else 0.0)
+    pts = [(away(rng), away(rng)) for _ in range(ctx.pick(40, 400))] + [(0.0, 1.5), (0.0, -1.5), (2.0, 0.0), (-2.0, 0.0)]
+    for (y, x) in pts:
+        n_obl += 1
+        if abs(num(sp.atan2(sp.Float(y), sp.Float(x))) - coq_atan2(y, x)) > 1e-12:
+            ctx.violation("C11:reading:atan2", f"sympy.atan2({y}, {x}) differs from the Coq definition's value {coq_atan2(y, x)}",
+                {"kind": "broken-tie", "theorem_or_tie": "reading of sympy.atan2 as Base.Atan2.atan2", "input": [y, x]}, found_input=False)
+            break
 
     # ---- 4. refusal tables (exhaustive) --------------------------------------------------------------------------
     rows = refusal_tables(api)
